@@ -174,7 +174,9 @@ class Assign:
             if not self.missing:
                 raise
 
-            remaining_path = self._orig_path[pae.part_idx + 1:]
+            # the rest of the path is applied to the new container (so it is
+            # rooted at T even when the destination is rooted at S)
+            remaining_path = self._orig_path[pae.part_idx + 1:].from_t()
             val = scope[glom](self.missing(), Assign(remaining_path, val, missing=self.missing), scope)
 
             op, arg = self._orig_path.items()[pae.part_idx]
